@@ -3,12 +3,16 @@
    Only ExtrOcamlBasic is used: nat, N, Z, positive stay the extracted inductives. *)
 From Coq Require Import List ZArith NArith Extraction ExtrOcamlBasic.
 From LMBase Require Import Res ListX IEEE.
-From LMScore Require Import ScoreModel SimdModel GenAvx2 GenLane4 ScoreCheck GenScores ScoresModel.
+From LMScore Require Import ScoreModel ScorePadModel SimdModel GenAvx2 GenLane4 ScoreCheck GenScores ScoresModel.
 
 Definition x_of_bits : Z -> f32 := F32.of_bits.
 Definition x_to_bits : f32 -> Z := F32.to_bits.
 
 Definition x_striped_b : nat -> nat -> list nat -> sseq -> bool := striped_b.
+(* states built by StripedSequence::new / ::sample (ScorePadModel.v): the executable [Padded] check and
+   the logical sequence read off the matrix *)
+Definition x_padded_b : nat -> nat -> sseq -> bool := padded_b.
+Definition x_logical_seq : nat -> nat -> sseq -> list nat := logical_seq.
 Definition x_score_def (N : nat) := @score_def f32 F32.add F32.zero N.
 
 Definition x_generic_rows_into (C : nat) := @generic_rows_into f32 F32.add F32.zero C.
@@ -41,6 +45,6 @@ Definition x_sk_empty (C : nat) := @sk_empty f32 F32.zero C.
 
 Extraction Language OCaml.
 Extraction "score_model.ml"
-  x_of_bits x_to_bits x_striped_b x_score_def x_generic_rows_into x_avx2_rows_into
+  x_of_bits x_to_bits x_striped_b x_padded_b x_logical_seq x_score_def x_generic_rows_into x_avx2_rows_into
   x_sse2_rows_into x_dispatch_rows_into x_score_with x_unstripe x_sc_get x_iter_ops x_offset x_score_position
   x_layout_ok x_hstep x_ref_call x_sk_unstripe x_sk_index x_sk_is_empty x_sk_iter_end x_sk_resize x_sk_empty check_value check_values check_C01 check_same_results check_subrange passes f32_terms f32_sum feqb seq_R.
